@@ -138,9 +138,24 @@ theorem getline_ok (sl : Sline) (h : SlineOK sl) (hcap : 1 ≤ sl.cap.toNat) :
   have hidx : cursor.toNat < buf.length := by omega
   have htake : (buf.set cursor.toNat 0#8).take cursor.toNat = buf.take cursor.toNat := by
     rw [List.take_set_of_le (Nat.le_refl _)]
+  have hc0 : ¬ (cap = 0#32) := by
+    intro h0; subst h0; simp at hcap
   refine ⟨⟨buf.set cursor.toNat 0, cap, cursor, cursor⟩, ?_, ⟨rfl, by simpa using hb, hl⟩, ?_, rfl, rfl⟩
-  · simp [Sline.getline, storeAt, hidx, Sline.bytes, htake]
+  · simp [Sline.getline, storeAt, hidx, Sline.bytes, htake, hc0]
   · simp [Sline.bytes, htake]
+
+/-- round 3b: `sline_getline` for EVERY capacity, 0 included (the guard `if (sl->cap)`: nothing is stored) -/
+theorem getline_ok_any (sl : Sline) (h : SlineOK sl) :
+    ∃ sl', sl.getline = some (sl', sl.bytes) ∧ SlineOK sl' ∧ sl'.bytes = sl.bytes ∧ sl'.cap = sl.cap ∧
+      sl'.len = sl.len ∧ (sl.cap = 0 → sl' = sl) := by
+  by_cases hc : sl.cap = 0
+  · exact ⟨sl, by simp [Sline.getline, hc, Sline.bytes], h, rfl, rfl, rfl, fun _ => rfl⟩
+  · have hcap : 1 ≤ sl.cap.toNat := by
+      rcases Nat.eq_zero_or_pos sl.cap.toNat with hz | hp
+      · exact absurd (BitVec.eq_of_toNat_eq (by simpa using hz)) hc
+      · exact hp
+    obtain ⟨sl', e1, e2, e3, e4, e5⟩ := getline_ok sl h hcap
+    exact ⟨sl', e1, e2, e3, e4, e5, fun h0 => absurd h0 hc⟩
 
 /-! ### configurable receiver -/
 
@@ -507,6 +522,54 @@ theorem blfeedTrace_eq (r : BLRecv) (h : SlineOK r.line) (hcap : 1 ≤ r.line.ca
       simp only [blfeedTrace, e1, hs, if_true, g1, Option.map_some, this, g2, e2, lfeedTrace]
       simp
     · have := ih r1 e3 (by rw [ecap]; exact hcap)
+      simp only [blfeedTrace, e1, hs, if_false, this, e2, lfeedTrace]
+      simp
+
+/-! ### round 3b: the same for EVERY capacity, 0 included (`sline_getline` guards its store with `if (sl->cap)`) -/
+
+theorem cstr_ok_any (r : BRecv) (h : SlineOK r.line) :
+    ∃ r', r.cstr = some (r', r.abs.line) ∧ r'.abs = r.abs ∧ SlineOK r'.line ∧ (r.line.cap = 0 → r' = r) := by
+  obtain ⟨sl', e1, e2, e3, e4, _, e6⟩ := getline_ok_any r.line h
+  refine ⟨{ r with line := sl' }, ?_, ?_, e2, ?_⟩
+  · simp only [BRecv.cstr, e1, BRecv.abs]
+  · simp only [BRecv.abs, e3, e4]
+  · intro h0; rw [e6 h0]
+
+theorem bfeedTrace_eq_any (ctx : Ctx) (r : BRecv) (h : SlineOK r.line)
+    (bs : List Byte) : bfeedTrace ctx r bs = some (feedTrace ctx r.abs bs) := by
+  induction bs generalizing r with
+  | nil => rfl
+  | cons c cs ih =>
+    obtain ⟨r1, e1, e2, e3, _, _⟩ := bnewchar_refines ctx r h c
+    by_cases hs : (newchar ctx r.abs c).2 = NEWPACKAGE
+    · obtain ⟨r2, g1, g2, g3, _⟩ := cstr_ok_any r1 e3
+      have := ih r2 g3
+      simp only [bfeedTrace, e1, hs, if_true, g1, Option.map_some, this, g2, e2, feedTrace]
+      simp
+    · have := ih r1 e3
+      simp only [bfeedTrace, e1, hs, if_false, this, e2, feedTrace]
+      simp
+
+theorem lgetline_ok_any (r : BLRecv) (h : SlineOK r.line) :
+    ∃ r', r.getline = some (r', r.abs.line) ∧ r'.abs = r.abs ∧ SlineOK r'.line ∧ (r.line.cap = 0 → r' = r) := by
+  obtain ⟨sl', e1, e2, e3, e4, _, e6⟩ := getline_ok_any r.line h
+  refine ⟨{ r with line := sl' }, ?_, ?_, e2, ?_⟩
+  · simp only [BLRecv.getline, e1, BLRecv.abs]
+  · simp only [BLRecv.abs, e3, e4]
+  · intro h0; rw [e6 h0]
+
+theorem blfeedTrace_eq_any (r : BLRecv) (h : SlineOK r.line)
+    (bs : List Byte) : blfeedTrace r bs = some (lfeedTrace r.abs bs) := by
+  induction bs generalizing r with
+  | nil => rfl
+  | cons c cs ih =>
+    obtain ⟨r1, e1, e2, e3, _, _⟩ := blnewchar_refines r h c
+    by_cases hs : (lnewchar r.abs c).2 = NEWPACKAGE
+    · obtain ⟨r2, g1, g2, g3, _⟩ := lgetline_ok_any r1 e3
+      have := ih r2 g3
+      simp only [blfeedTrace, e1, hs, if_true, g1, Option.map_some, this, g2, e2, lfeedTrace]
+      simp
+    · have := ih r1 e3
       simp only [blfeedTrace, e1, hs, if_false, this, e2, lfeedTrace]
       simp
 
